@@ -5,6 +5,19 @@ VERIF = os.path.dirname(os.path.dirname(os.path.abspath(__file__)))
 ALL = ["C%02d" % i for i in range(1, 21)]
 
 CHECKS = {
+ "C03": dict(cat="exploration", ref="DESIGN.md §3 C03",
+   text="Expected parity for each (coefficients, sources) vector is computed by TLC from spec/EC.tla (GF(2^8) matrix product over the field of GF256.tla) and replayed into the real "
+        "library: every encode wrapper (base, sse, avx, avx2, avx512, avx512_gfni, avx2_gfni, dispatched) and every gf_{1..6}vect_dot_prod_<isa> kernel, for every len 0..N, "
+        "three guard-page placements and 64 alignments at selected lengths, rows covering all 6/5/4/3/2/1 batch remainders, k up to 127 (255 thorough). Outputs, canaries, sources and faults are checked. "
+        "Exhaustive in len and placement per vector; inputs sampled from VERIF_SEED.",
+   note="Trusted: TLC's evaluation of EC.tla/GF256.tla; harness h_ec.c; kernels called within documented minimum lengths; host executes all ISA variants natively.",
+   technique="TLA+ spec evaluated by TLC as oracle generator; spec-generated vectors replayed into every implementation variant"),
+ "C13": dict(cat="exploration", ref="DESIGN.md §3 C13",
+   text="TLC folds EC!Update over an update order (identity, reversed, permuted, with an index applied twice) and emits the parity after every step, after confirming on the spec that a full pass equals EC!Encode. "
+        "Each step is replayed from the spec's pre-state into ec_encode_data_update{_base,_sse,_avx,_avx2,_avx512,_avx512_gfni,_avx2_gfni,dispatched} and gf_{1..6}vect_mad_<isa>, every len 0..N, guard-page placements and alignments; "
+        "gf_vect_mul{,_base,_sse,_avx} for every multiple of 32 (= EC!VectMul) and non-zero return otherwise.",
+   note="Trusted: TLC's evaluation of EC.tla; harness h_ec.c; documented kernel minimum lengths respected.",
+   technique="TLA+ spec evaluated by TLC as oracle generator; spec-generated step-by-step behaviours replayed into every variant"),
  "C12": dict(cat="exploration", ref="DESIGN.md §3 C12",
    text="Exhaustive over the implementation's whole input space: all 65,536 gf_mul operand pairs, all 256 gf_inv operands and every byte of "
         "the table expansions of all 256 constants (gf_vect_mul_init, ec_init_tables_base, dispatched ec_init_tables, ec_init_tables_gfni) are "
